@@ -43,6 +43,23 @@ theorem C14_completed_save_installs_new (pr : Probe) (dest tmp : Path) (fd : Nat
     Settled s dest (some chunks.flatten) ∧ visible s dest = some chunks.flatten :=
   ⟨atomic_complete hwf hne h, settled_visible (atomic_complete hwf hne h)⟩
 
+/-- The committed temporary file holds exactly ONE version: every write between its
+exclusive create and the rename belongs to the one run that produced `chunks`
+(the program has no other write), and that — nothing before it, nothing after
+it — is what a completed save shows.  The driver checks the same on every real
+trace: sum and number of the write chunks of a committed save equal the length
+and the number of rule lines of the one complete list served (`C14.length`,
+`C14.oneversion`), and the final file equals it byte for byte (`C14.content`). -/
+theorem C14_committed_content_is_one_version (pr : Probe) (dest tmp : Path) (fd : Nat)
+    (chunks : List Content) (s₀ s : FS) (hwf : WF s₀) (hne : tmp ≠ dest)
+    (h : runAbort s₀ (atomicWrite pr dest tmp fd chunks) = (s, true)) :
+    writesOf (atomicWrite pr dest tmp fd chunks) = chunks ∧
+      visible s dest = some (writesOf (atomicWrite pr dest tmp fd chunks)).flatten := by
+  have hw : writesOf (atomicWrite pr dest tmp fd chunks) = chunks := by
+    simp only [atomicWrite, stageOps, writesOf_append, writesOf_map, writesOf_probe]
+    simp [writesOf]
+  exact ⟨hw, by rw [hw]; exact settled_visible (atomic_complete hwf hne h)⟩
+
 /-- An abandoned filter update (`Cleanup`: list unchanged, download or parse
 error after any number of rule lines) never shows anything but the old file. -/
 theorem C14_abandoned_update_keeps_old (pr : Probe) (dest tmp : Path) (fd : Nat)
